@@ -637,6 +637,9 @@ class TaskScenario(ScenarioData):
             previous_effort = self.doneEffort
 
             self.currentSlotIdx += delta
+            # The start offset is the predecessor's share of the slot that contains the dependency
+            # bound. Once the walk has left that slot, no later slot is shared with the predecessor.
+            self.slotStartOffset = 0.0
             if self.currentSlotIdx < lowerLimit or self.currentSlotIdx > upperLimit:
                 self.isRunAway = True
                 return False
